@@ -142,7 +142,7 @@ def cases(chunk):
         for j in range(chunk["n"]):
             n = chunk["size"]
             spec = G.big_graph(rng, n, rng.choice([4, 8, 10]) * n)
-            yield {"kind": "big", "g": spec, "ord": rng.randrange(1 << 30)}
+            yield {"kind": "big", "g": spec, "ord": rng.randrange(1 << 30), "limit_x": 3}
     else:
         raise M.HarnessError("unknown chunk kind %r" % kind)
 
